@@ -8,7 +8,7 @@ import (
 )
 
 var Specs = map[string]*core.Spec{
-	"C06": {Prop: "C06", World: "W2 c06log", Gen: Gen, Decode: Decode, Exec: Exec,
+	"C06": {Prop: "C06", World: "W2 c06log", Gen: Gen, Decode: Decode, Exec: Exec, LightRuns: true,
 		Rule:           "seeded log contents (encoded commands of varied size, empty application entries, config-change and metadata entries), growing applied index, compaction points (cache told at once or late), Replicate requests at start indices 0 / compacted / inside / applied / applied+1 / beyond, message-size limits 1 B..4 MiB, cache sizes 1..100, raw QueryRaftLog calls; the same request goes to a Simple and a Cached reader; non-trivial = a stream of several messages or a simple-vs-cached comparison with a small cache; distinct = digests of delivered streams",
 		Real:           []string{"regattaserver.LogServer.Replicate + entryToCommand", "storage/logreader Simple, Cached, ShardCache, cache"},
 		Stub:           []string{"Raft log: simulated ReadonlyLogReader following dragonboat's LogReader arithmetic (GetRange, Entries incl. at-least-one-entry rule)", "table: raft handler answering the applied index", "gRPC server stream: in-memory recorder"},
